@@ -13,7 +13,7 @@ import (
 func main() {
 	r := ev.Start("C04")
 	r.SetDeadline(ev.Pick(r, 40*time.Second, 900*time.Second))
-	keys := ev.Pick(r, 2, 3)
+	keys := ev.Pick(r, 4, 5)
 	res := seqmc.Explore(r, seqmc.Config{Name: "map-sequential", New: func() seqmc.Sys {
 		return maph.New(keys)
 	}})
